@@ -102,3 +102,11 @@ prepare_C02() { prepare_default && build_arch386; }
 prepare_C15() { prepare_default && build_arch386; }
 prepare_C16() { prepare_default && build_arch386; }
 prepare_C17() { prepare_default && build_arch386; }
+
+# optional br/zstd decoder for C19's documentation-asset monitor (built from the REST module's own dependencies in the
+# module cache); when it cannot be built the monitor counts responses in those encodings without judging them
+build_decoders() {
+  (cd "$VERIF_ROOT/decoders" && GOWORK=off GOFLAGS=-mod=mod "$GO_BIN" build -o "$S/decode" .) 2>>"$S/build.err" && export VERIF_DECODE_BIN=$S/decode || echo "NOTE br/zstd decoder not built: responses in these encodings are counted, not judged"
+  return 0
+}
+prepare_C19() { prepare_C18 && build_decoders; }
